@@ -22,8 +22,10 @@ Oracle (model independent, real code only):
   * Frenet frame orthonormal, curvature/torsion vs the exact formulas (Fractions, Leibniz rule for
     rational curves), scalar call == array call, rotation/scaling behaviour, circle = 1/r, twisted cubic.
 
-Findings on the pinned tree (classify labels; the model follows the PROPERTY in all three, so these
-inputs show up as model/implementation disagreements AND oracle failures):
+Findings seen on the originally pinned tree, since FIXED in /repo (274e74a torsion, ea90458
+Curve.derivative squeeze, fc5b45b integrate sums all periodic images); the classify labels are kept so
+that a regression is reported by name, and the sentinels at the head of the case list replay them
+(the model agrees with the fixed code; `integrate`'s collapse is now mirrored literally):
   * torsion-scalar-branch-uses-acceleration: Curve.torsion(t) with scalar t forms dot(v x a, a) == 0
     instead of dot(v x a, a'), so it returns 0 for every curve;
   * rational-curve-one-element-list-derivative-squeezed: Curve.derivative(t=[t0], d=2|3) of a rational
@@ -35,6 +37,9 @@ inputs show up as model/implementation disagreements AND oracle failures):
 Not a finding (outside the quantifier "sub-intervals of the domain"): integrate across the seam of
 a periodic basis raises TypeError ('NotImplementedType' object is not callable) — `raise
 NotImplemented(...)`; the model mirrors that class (tag integrate:seam-refusal).
+Seeded changes this module is built to catch: a closed-form `center` weight (t[i+p]-t[i])/p (wrong on
+unclamped / half-clamped non-periodic directions: tags *:non-open; exact integral mean + translation
+covariance) and `t0 = t0 or start` in `length` (a bound equal to 0: tag length:bound=0).
 Quadrature-ERROR clauses of the property (insertion/elevation/splitting with non-polynomial
 integrands, convergence to analytic values) are oracle-only: no theorem covers them.
 """
